@@ -15,7 +15,7 @@ EXTRACTS = ["Solver"]
 THEOREMS = ['C09_no_candidate_is_honest_partial', 'C09_reported_chains_are_real', 'C09_refuted_internal_errors_escape', 'C09_refuted_unbounded_recursion', 'C09_refuted_is_possible_unsound', 'C09_unusable_solution_line_is_diagnosed',
             'C09_unusable_repository_argument_is_diagnosed_partial', 'C09_reported_failures_exit_1', 'C09_refuted_internal_error_reaches_the_user',
             'C09_unusable_source_findlinks_arguments_are_diagnosed', 'C09_walkback_spends_the_downgrade_budget']
-MODES = ['conflict', 'conflict', 'dense', 'dense', 'extras', 'calm', 'cascade', 'deepconflict']
+MODES = ['conflict', 'conflict', 'dense', 'dense', 'extras', 'calm', 'cascade', 'deepconflict', 'triconflict']
 RULE = ("universes (2-6 projects x 1-4 versions incl. pre/post/dev releases, requirements with the 7 operators, "
         "wildcards, extras, extra- and environment-markers, cycles, unreadable files, misnamed files), 1-3 input files, "
         "optional unpinned / fully pinned constraint files, remove_constraints, allow_prerelease, max_downgrade) are "
